@@ -23,3 +23,57 @@ package cutter
 //@   ensures len(r0) < len(opsAtTime) ==> opsAtTime[len(r0)].ProtocolVersion != opsAtTime[0].ProtocolVersion
 //@   ensures len(opsAtTime) > 0 ==> len(r0) > 0 && r1 == opsAtTime[0].ProtocolVersion
 //@   ensures forall q int :: 0 <= q && q < len(r0) ==> r0[q] != nil && r0[q].UniqueSuffix == opsAtTime[q].UniqueSuffix && r0[q].Type == opsAtTime[q].Type && r0[q].OperationRequest == opsAtTime[q].OperationRequest && r0[q].Namespace == opsAtTime[q].Namespace
+
+// ---- C16: Cut ----
+// The queue is seen through ghost state updated by the interface contracts: qLen (length reported by Len),
+// peekN / removeN (arguments of the last Peek / Remove). Other goroutines may only Add between the calls.
+//
+//@ ghost qLenSeen uint
+//@ ghost peekN uint
+//@ ghost removeN uint
+//@ ghost removes int
+//@ ghost qMin uint
+//@ spec curVer(c protocol.Client) protocol.Version
+//@ spec maxOps(v protocol.Version) uint
+//
+// qMin: a lower bound on the queue length (single consumer: between calls the queue can only grow at the tail)
+//@ iface OperationQueue.Len
+//@   modifies qLenSeen, qMin
+//@   ensures qLenSeen == result && qMin == result
+//@ iface OperationQueue.Peek
+//@   results ops, err
+//@   modifies peekN, qMin
+//@   ensures peekN == num && qMin >= old(qMin)
+//@   ensures err == nil ==> len(ops) <= num && len(ops) <= qMin && (num <= old(qMin) ==> len(ops) == num) && queuedNonNil(ops)
+//@ iface OperationQueue.Remove
+//@   results ops, ack, nack, err
+//@   modifies removeN, removes, qMin
+//@   ensures removeN == num && removes == old(removes) + 1
+//@   ensures err == nil ==> len(ops) <= num && (num <= old(qMin) ==> len(ops) == num) && queuedNonNil(ops)
+//@ iface OperationQueue.Add
+//@ iface api/protocol.Client.Current
+//@   results v, err
+//@   ensures err == nil ==> v != nil && v == curVer(this)
+//
+//@ func (*BatchCutter).Add
+//@   requires r != nil && r.pendingBatch != nil
+//
+//@ func (*BatchCutter).Cut
+//@   requires r != nil && r.pendingBatch != nil && r.client != nil
+//@   results res, err
+//@   ensures err == nil && !force && qLenSeen < maxOps(curVer(r.client)) ==> len(res.Operations) == 0 && removes == old(removes) && res.Pending == qLenSeen
+//@   ensures err == nil ==> len(res.Operations) <= maxOps(curVer(r.client)) && len(res.Operations) <= qLenSeen
+//@   ensures err == nil && len(res.Operations) > 0 ==> removes == old(removes) + 1 && removeN == len(res.Operations) && res.Pending == qLenSeen - len(res.Operations)
+//@   ensures err == nil && len(res.Operations) == 0 ==> removes == old(removes)
+//@   ensures removes <= old(removes) + 1
+//@   modifies qLenSeen, peekN, removeN, removes, qMin
+//
+// function-valued fields of a cut result: committing / rolling back the removal
+//@ ghost acks int
+//@ ghost nacks int
+//@ iface Result.Ack
+//@   modifies acks
+//@   ensures acks == old(acks) + 1
+//@ iface Result.Nack
+//@   modifies nacks
+//@   ensures nacks == old(nacks) + 1
